@@ -81,10 +81,19 @@ def _cvc5_model(text, timeout_ms):
 
 
 def solve_one(job):
-    idx, texts, tier, seed = job
+    idx, texts, tier, seed = job[:4]
+    is_cover = len(job) > 4 and job[4]
     log = []
     total = 0
     smt2 = texts[-1]
+    if is_cover:
+        for backend, to in (("z3", 3000), ("cvc5", 4000)):
+            r, ms, model, why = (_z3_check(smt2, to, seed) if backend == "z3" else _cvc5_check(smt2, to, False))
+            total += ms
+            log.append((backend, r, ms, why))
+            if r in ("sat", "unsat"):
+                return idx, r, backend, total, None, log
+        return idx, "unknown", "none", total, None, log
     # sliced contexts first: only `unsat` is meaningful there
     for n, text in enumerate(texts[:-1]):
         for backend, to in (("z3", 1500), ("cvc5", 6000)):
@@ -130,7 +139,7 @@ def discharge(obligations, tier="quick", seed=0, procs=None):
     for i, ob in enumerate(obligations):
         if ob.verdict is not None:
             continue
-        jobs.append((i, ob.slices(), tier, seed))
+        jobs.append((i, ob.slices(), tier, seed, ob.kind == 'cover'))
     if not jobs:
         return
     procs = procs or min(16, max(1, (os.cpu_count() or 4)))
